@@ -428,6 +428,14 @@ func (f *evm) Gen(r *hx.Run) {
 				cc.slots[slot] = crypto.Keccak256(m)
 				msgs[slot] = m
 			}
+			if g.Chance(1, 3) {
+				// a slot that commits to a message which does not decode (truncated serialization)
+				m := randMsg(g, false)
+				m = m[:1+g.Intn(len(m)-1)]
+				slot := ecom.BytesToHash(g.Bytes(32))
+				cc.slots[slot] = crypto.Keccak256(m)
+				msgs[slot] = m
+			}
 			w.accts = append(w.accts, cc)
 			for i := 0; i < 1+g.Intn(4); i++ {
 				o := &acctRec{addr: g.Bytes(20), nonce: big.NewInt(int64(g.Intn(1000))), balance: new(big.Int).SetUint64(g.U64()),
@@ -508,7 +516,7 @@ func (f *evm) Gen(r *hx.Run) {
 				StorageProofs: []ccmeth.StorageProof{{Key: hex0x(slot[:]), Proof: prove(b.cc.storageTrie, crypto.Keccak256(slot[:]))}}}
 			if mut == "none" && g.Chance(3, 5) {
 				other := b.w.accts[1+g.Intn(len(b.w.accts)-1)]
-				switch g.Intn(22) {
+				switch g.Intn(23) {
 				case 0:
 					d.p.AccountProof = d.p.AccountProof[:len(d.p.AccountProof)-1]
 					mut = "account-proof-truncated-tail"
@@ -617,6 +625,10 @@ func (f *evm) Gen(r *hx.Run) {
 				case 21:
 					d.p.StorageHash = hex0x(g.Bytes(32))
 					mut = "other-storage-hash"
+				case 22:
+					d.height = uint32(base - 1 - uint64(g.Intn(3)))
+					d.btw = 1
+					mut = "below-trust-root"
 				}
 			}
 			var roots []ecom.Hash
